@@ -503,6 +503,19 @@ pub fn analyze(sc: &Scenario, r: &RunResult) -> Vec<Violation> {
         _ => {}
     }
 
+    // C18: a try operation running alone (all other threads frozen) must return within a bound of its own steps
+    if let Outcome::SoloExceeded(t, n) = &r.outcome {
+        let mut cur = String::new();
+        for rec in &r.trace {
+            if let crate::sched::Rec::Call { tid, text } = rec {
+                if tid == t {
+                    cur = text.clone();
+                }
+            }
+        }
+        out.push(Violation { prop: "C18", msg: format!("thread {} running alone did not finish `{}` within {} of its own steps (other threads frozen mid-operation)", t, cur, n) });
+    }
+    // solo step counts of completed try operations (max), for the evidence
     // C06 quiescent probe (epilogue): exactly N - outstanding sends accepted, every stream drains its outstanding values
     if finished && sc.epilogue == Epilogue::Probe && out.is_empty() {
         let ep = &calls[r.epilogue_calls_from.min(calls.len())..];
@@ -520,10 +533,13 @@ pub fn analyze(sc: &Scenario, r: &RunResult) -> Vec<Violation> {
             let filled = ep.iter().filter(|c| send_ok(c)).count();
             let refused = ep.iter().any(|c| is_send(c) && !send_ok(c));
             if refused && filled + outstanding != hb.n {
-                out.push(Violation {
-                    prop: "C06",
-                    msg: format!("quiescent queue accepted {} sends with {} outstanding, expected {} (N={})", filled, outstanding, hb.n - outstanding.min(hb.n), hb.n),
-                });
+                let msg = format!("quiescent queue accepted {} sends with {} outstanding, expected {} (N={})", filled, outstanding, hb.n - outstanding.min(hb.n), hb.n);
+                out.push(Violation { prop: "C06", msg: msg.clone() });
+                // a stream that was removed earlier must not limit the senders any more
+                let removed = hb.handles.values().filter(|e| !e.1).map(|e| e.0).collect::<HashSet<_>>().iter().any(|s| !live_streams.contains(s));
+                if removed && filled + outstanding < hb.n {
+                    out.push(Violation { prop: "C11", msg: format!("after a stream was removed: {}", msg) });
+                }
             }
             for &s in &live_streams {
                 let exp = hb.accepted.len() - hb.delivered.get(&s).map(|v| v.len()).unwrap_or(0) + filled;
